@@ -189,9 +189,9 @@ fn main() {
             match util::guarded(|| run_script(&spec, &objs, &script, &opts)) {
                 Ok(Ok(run)) => {
                     // publish() failures mean the FDT does not fit the default OTI: precondition
-                    if run.ops.iter().any(|o| o.op == Op::Publish && !o.ok) {
-                        cr.count("scripts_with_publish_error_skipped", 1);
-                        return cr;
+                    let publish_failed = run.ops.iter().any(|o| o.op == Op::Publish && !o.ok);
+                    if publish_failed {
+                        cr.count("scripts_with_failed_publish", 1);
                     }
                     let (nobj, nfdt, st) = judge(&run, &mut cr.violations);
                     cr.count("object_packets", nobj);
@@ -207,6 +207,72 @@ fn main() {
                         cr.inconclusive = Some(e);
                     }
                 }
+                Err(p) => cr.violations.push(Violation::new(if p.is_step_budget() { "hang" } else { "panic" }, format!("{} @ {}", p.msg, p.short_loc())).with("site", if p.is_step_budget() { p.step_site() } else { p.file() })
+                    .witness(json!({"sender": spec.json(), "script": format!("{:?}", script)}))),
+            }
+            limit(&mut cr.violations, 3);
+            cr
+        }));
+        // publish() that fails because the FDT cannot be encoded with the session OTI (Raptor: 2-3 symbols;
+        // any scheme: longer than the maximum transfer length): objects never listed must stay silent
+        let nf = ctx.tier.pick(600usize, 20_000);
+        gens.push(Gen::new("failed_publish", nf, move |ctx, i| {
+            let mut rng = Rng::keyed(ctx.seed, "C11f", 0, i as u64);
+            let mut cr = CaseResult::default();
+            let kind = i % 3;
+            let oti = match kind {
+                // Raptor, large symbols: an FDT of 2-3 symbols is refused, 1 or >= 4 symbols are fine
+                0 => { let mut o = OtiSpec::new(Fec::Raptor, *rng.pick(&[700u16, 1000, 1400]), 64, 1); o.al = 4; o }
+                // tiny maximum transfer length: FDT instances above B*E*... bytes cannot be sent
+                1 => OtiSpec::new(Fec::NoCode, *rng.pick(&[256u16, 512]), *rng.pick(&[1u32, 2, 3]), 0),
+                _ => OtiSpec::new(Fec::Rs28, *rng.pick(&[128u16, 256]), *rng.pick(&[2u32, 4]), 1),
+            };
+            let mut spec = SenderSpec::new(oti);
+            spec.full_fdt = rng.chance(2, 3);
+            spec.fdt_carousel = CarouselSpec::DelayMs(*rng.pick(&[0u64, 100, 5000]));
+            spec.fdt_duration_s = 3600;
+            let nobj = rng.range(2, 14) as usize;
+            let obj_oti = OtiSpec::new(Fec::NoCode, 64, 8, 0);
+            let mut objs = vec![];
+            let mut script: Vec<(When, Op)> = vec![];
+            let mut pk = 0usize;
+            for k in 0..nobj {
+                let olen = rng.range(1, 300) as usize;
+                let mut o = ObjSpec::new(gen_bytes(&mut rng, olen), &format!("file:///failed-publish/a-rather-long-location-to-make-the-fdt-grow/{}", k));
+                o.oti = Some(obj_oti.clone());
+                objs.push(o);
+                script.push((if k == 0 { When::Start } else { When::Packets(pk) }, Op::Add(k)));
+                if rng.chance(3, 4) {
+                    script.push((if k == 0 { When::Start } else { When::Packets(pk) }, Op::Publish));
+                }
+                pk += rng.range(0, 12) as usize;
+            }
+            script.push((When::Packets(pk + 5), Op::Publish));
+            let mut opts = ScriptOpts::every(100, 80);
+            opts.drain = rng.chance(3, 4);
+            opts.stop_when_empty = false;
+            opts.max_packets = 4000;
+            match util::guarded(|| run_script(&spec, &objs, &script, &opts)) {
+                Ok(Ok(run)) => {
+                    let failed = run.ops.iter().filter(|o| o.op == Op::Publish && !o.ok).count();
+                    let ok = run.ops.iter().filter(|o| o.op == Op::Publish && o.ok).count();
+                    cr.count("publish_failed", failed as u64);
+                    cr.count("publish_ok", ok as u64);
+                    let (nobj, nfdt, st) = judge(&run, &mut cr.violations);
+                    cr.count("object_packets", nobj);
+                    cr.count("fdt_packets", nfdt);
+                    cr.states = st;
+                    for v in cr.violations.iter_mut() {
+                        v.sig.insert("after_failed_publish".into(), json!(failed > 0));
+                    }
+                    if failed > 0 {
+                        cr.shape = Some(util::fnv(&format!("fp|{}|{}|{}|{}|{}", kind, run.spec.full_fdt, failed.min(6), ok.min(6), nobj.min(40))));
+                    }
+                    if i % 53 == 0 {
+                        cr.sample = Some(json!({"sender": run.spec.json(), "ops": run.ops.iter().map(|o| format!("{:?}@{}{}", o.op, o.pkt_index, if o.ok { "" } else { " FAILED" })).collect::<Vec<_>>(), "object_packets": nobj, "fdt_packets": nfdt}));
+                    }
+                }
+                Ok(Err(e)) => cr.inconclusive = Some(e),
                 Err(p) => cr.violations.push(Violation::new(if p.is_step_budget() { "hang" } else { "panic" }, format!("{} @ {}", p.msg, p.short_loc())).with("site", if p.is_step_budget() { p.step_site() } else { p.file() })
                     .witness(json!({"sender": spec.json(), "script": format!("{:?}", script)}))),
             }
